@@ -377,26 +377,22 @@ func (r *Reconciler) selectNodes(logger logr.Logger, daemonset *datadoghqv1alpha
 		return nodeNameRestarts[nodeList.Items[i].Name] < nodeNameRestarts[nodeList.Items[j].Name]
 	})
 
-	// Filter Nodes Unschedulable
-	for _, node := range nodeList.Items {
-		found := false
-		var id int
-		for id = range currentNodes {
-			if node.Name == currentNodes[id] {
-				found = true
-
-				break
+	// Keep only the previously selected nodes that still exist, still match the canary node selector
+	// and on which the pod can still be scheduled (a node that was deleted or relabelled is not in nodeList).
+	var stillValidNodes []string
+	for _, nodeName := range currentNodes {
+		for id := range nodeList.Items {
+			if nodeList.Items[id].Name != nodeName {
+				continue
 			}
-		}
+			if scheduler.CheckNodeFitness(logger.WithValues("filter", "Nodes Unschedulabled"), newPod, &nodeList.Items[id]) {
+				stillValidNodes = append(stillValidNodes, nodeName)
+			}
 
-		if !found {
-			continue
-		}
-
-		if !scheduler.CheckNodeFitness(logger.WithValues("filter", "Nodes Unschedulabled"), newPod, &node) {
-			currentNodes = append(currentNodes[:id], currentNodes[id+1:]...)
+			break
 		}
 	}
+	currentNodes = stillValidNodes
 
 	// Look for other nodes to use as canary
 	if len(currentNodes) < nbCanaryPod {
